@@ -236,6 +236,8 @@ func genOne(r *rng.R, idx int, seed uint64, mode string, gated, concrete bool, t
 	}
 	if mode == "upgrade" {
 		p.ViaProxy = r.Intn(3) == 0
+	} else if mode != "upgradetls" && r.Intn(2) == 0 {
+		p.HeadVariant = 1 + r.Intn(5)
 	}
 	// one in six through martian's http.Handler on net/http's server (Hijack path of proxy_handler.go)
 	p.Handler = r.Intn(6) == 0
